@@ -541,7 +541,7 @@ slice_to_array32(bytes
         proof {
             if self.stored().len() <= 32 {
                 let pad = Seq::new((32 - self.stored().len()) as nat, |i: int| 0u8);
-                assert(bytes@ =~= self.stored() + pad);
+                assert(bytes@ =~= self.stored() + pad);      //@ob C07.alu.push.immediate_is_zero_padded_to_a_word
                 lemma_le_zero_padding(self.stored(), pad);
                 lemma_le_is_be_reversed(self.stored());
             }
